@@ -8,7 +8,7 @@ hooks = subprocess.check_output(['git', '-C', '/repo', 'log', '--format=%H', '--
 # property -> (category, technique, level text, level note, design ref)
 CHECKS = {
  'C12': ('exploration', 'runtime monitor: step-by-step comparison of the live ValidatorSet with an executable big.Int transcription of the specification over generated validator-set histories',
-         'Every IncrementProposerPriority / UpdateWithChangeSet / Copy of generated histories (thousands of sets, powers 1..cap/8, valid and invalid change sets in every order) is executed on the real ValidatorSet and compared field by field (order, power, priority, proposer, total) with an independent specification transcription; validity, atomicity, order independence, window, starvation and fairness are asserted on what was observed. Held-on-observed, not a proof.',
+         'Every IncrementProposerPriority / UpdateWithChangeSet / Copy of generated histories (thousands of sets, powers 1..cap/8, valid and invalid change sets in every order) is executed on the real ValidatorSet and compared field by field (order, power, priority, proposer, total) with an independent specification transcription; validity, atomicity, order independence, window, starvation and fairness are asserted on what was observed. Group cstate compares the current/next sets of the nodes of a real simulated network (scripted power changes at consecutive heights) with the specification after every block; group rounds runs one real consensus state against scripted validators and compares the proposer it expects in every round it enters - walking through the rounds or jumping on +2/3 votes of a later round - with the specification advanced from the round-1 set. Held-on-observed, not a proof.',
          'Trusted: the spec transcription in harness/c12 (written from the property text), Go toolchain.', 'DESIGN.md 4 C12'),
 }
 NOT_YET = {}
